@@ -3,6 +3,9 @@
 
 use bita_verif_harness as h;
 
+#[global_allocator]
+static ALLOC: h::alloc_probe::Counting = h::alloc_probe::Counting;
+
 mod chunking;
 mod format;
 mod helpers;
